@@ -1,0 +1,10 @@
+//go:build verif
+
+package extendeddaemonset
+
+import (
+	generator "k8s.io/kube-state-metrics/v2/pkg/metric_generator"
+)
+
+// VerifMetricFamilies exposes generateMetricFamilies.
+func VerifMetricFamilies() []generator.FamilyGenerator { return generateMetricFamilies() }
